@@ -93,6 +93,31 @@ def k_rid_pair(ctx, a, b, ra, rb):
         ctx.check("rid.hash", len(d) == 2 and d[x] == 1 and d[y] == 2, "dict_conflates_different_ids", feat, case)
 
 
+class _Iso:
+    """Decoded reports kept while later ones are decoded: their accessor views and re-packed octets must not change."""
+    def __init__(self):
+        self.buf = []
+
+    def remember(self, obj, raw, view):
+        self.buf.append((obj, bytes(raw), view, repr(view())))
+        self.buf = self.buf[-6:]
+
+    def recheck(self, ctx, case):
+        for obj, raw, view, seen in self.buf[:-1]:
+            ctx.ev("report.decoded_objects_independent")
+            try:
+                now = repr(view())
+            except Exception as e:  # noqa: BLE001
+                now = "raised " + repr(e)
+            if now != seen:
+                ctx.fail("report.decoded_objects_independent", "earlier_decoded_report_changed_by_a_later_decode", "accessors", case, read_then=seen[:200], read_now=now[:200])
+                self.buf = self.buf[-1:]
+                return
+
+
+ISO = _Iso()
+
+
 def _pfe(width, val, style):
     """The three documented ways to build an enumerated packet field of `width` octets."""
     from spacepackets.ecss import fields as F
@@ -164,6 +189,10 @@ def k_report(ctx, p):
         return
     ok, rp = attempt(u.pack)
     ctx.check("report.roundtrip", ok and bytes(rp) == want, "repack", f"sub={sub}", case)
+    ISO.remember(u, want, lambda u=u: (u.tc_req_id.as_u32(), None if u.step_id is None else (u.step_id.pfc, u.step_id.val),
+                                       None if u.error_code is None else (u.error_code.pfc, u.error_code.val),
+                                       None if u.failure_notice is None else bytes(u.failure_notice.data).hex(), int(u.subservice), bytes(u.source_data).hex()))
+    ISO.recheck(ctx, case)
     ok, e = attempt(lambda: (u == rep) and (rep == u))
     ctx.check("report.roundtrip", ok and e is True, "decoded_report_not_equal_to_original", "failure" if sub % 2 == 0 else "success", case, observed=repr(e))
     ok, ft = attempt(s1.Service1Tm.from_tm, u.pus_tm, up)
@@ -406,5 +435,5 @@ def conclude(ctx):
         ctx.require(ctx.classes.get(f"rid/{route}", 0) > 0, f"route {route} not exercised")
     for c in ("rid_pair/equal", "rid_pair/onebit", "rid_pair/different"):
         ctx.require(ctx.classes.get(c, 0) > 0, f"class {c} empty")
-    for m in ("rid.pack", "rid.as_u32", "rid.unpack", "rid.eq", "rid.hash", "report.pack", "report.unpack", "report.roundtrip", "report.param_match", "report.source_data", "pfe", "rid.history", "report.repack_after_change"):
+    for m in ("rid.pack", "rid.as_u32", "rid.unpack", "rid.eq", "rid.hash", "report.pack", "report.unpack", "report.roundtrip", "report.param_match", "report.source_data", "pfe", "rid.history", "report.repack_after_change", "report.decoded_objects_independent"):
         ctx.require(ctx.monitors.get(m, {}).get("evaluations", 0) > 0, f"monitor {m} never evaluated")
